@@ -250,3 +250,29 @@ Theorem C14_text_name_whitespace_ends_name :
                start_cb t = Ok df /\ map fst (df_cells df) = ["u1"].
 Proof. exact name_whitespace_ends_name. Qed.
 Local Close Scope string_scope.
+
+(** ** source tie (translation) of the pure transformer callbacks: SdfTransformer.triple, sanitize, SdfTransformer.iopath /
+    interconnect, translated from the CURRENT source text (Gen/SdfCallbacksSrc.v, translate/gen_sdf_callbacks.py), ARE the hand model:
+    on the number tokens of a triple (text = body followed by the ":" / ")" the token pattern includes) triple computes
+    [triple_cb] of the numbers Model/SdfText.v reads ([triple_of_x]; None = float() raises / leaves the 1/8 grid); on two name
+    tokens followed by the triples' values the entry callbacks compute [entry_cb] (one triple duplicated, any other count than
+    one or two raises in the namedtuple constructor). *)
+From KV Require Import Model.SdfCallbacksSrcLib Gen.SdfCallbacksSrc Proofs.SdfCallbacksSrcProofs.
+Theorem C14_callbacks_source_is_model :
+  (forall l : list (string * ascii),
+     SdfTransformer_triple_src (map (fun p => tok_of (fst p) (snd p)) l) = option_map triple_cb (triple_of_x (map fst l))) /\
+  (forall a b ts,
+     SdfTransformer_iopath_src (enc_entry_args a b ts) = match entry_cb (TEntry true a b ts) with Ok e => Some (enc_entry e) | Err => None end /\
+     SdfTransformer_interconnect_src (enc_entry_args a b ts) = match entry_cb (TEntry false a b ts) with Ok e => Some (enc_entry e) | Err => None end).
+Proof. exact callbacks_source_is_model. Qed.
+Local Open Scope string_scope.
+Theorem C14_callbacks_source_nonvacuous :
+  SdfTransformer_triple_src ["0.5:"; ":"; "-1.25)"] = Some [4; 0; -10]%Z /\
+  SdfTransformer_iopath_src [SvTok "(posedge A)"; SvTok "Y"; SvNums [4; 0; -10]%Z] =
+    Some [SvTok "(posedge A)"; SvTok "Y"; SvNums [4; 0; -10]%Z; SvNums [4; 0; -10]%Z] /\
+  SdfTransformer_interconnect_src [SvTok "u1/Y"; SvTok "u2/A"; SvNums [8; 8; 8]%Z; SvNums []] =
+    Some [SvTok "u1/Y"; SvTok "u2/A"; SvNums [8; 8; 8]%Z; SvNums []] /\
+  SdfTransformer_iopath_src [SvTok "A"; SvTok "Y"; SvNums []; SvNums []; SvNums []] = None /\
+  SdfTransformer_iopath_src [SvTok "A"; SvTok "Y"] = None.
+Proof. exact callbacks_nonvacuous. Qed.
+Local Close Scope string_scope.
